@@ -354,22 +354,13 @@ theorem C12_rpc_orders_in_domain (version lease : Nat) (d : RpcOrder) (sel : Opt
     (d.auctionType ≠ outboundMarket → o.units < 4294967296 → o.minUnitsMatch ≤ o.units) :=
   parsed_order_in_domain version lease d sel o hd hsel h
 
-/-- Statement-level shape of `ParseRPCOrder` = what `parseRPCOrder` models: the two guards of the min units
-match, the field assignments, the channel-type switch with its one special clause (UNKNOWN → selector or
-peer dependent) and an error default. -/
+/-- The channel-type conversion of `ParseRPCOrder` (in the function or in the helper it hands
+`details.ChannelType` to) = what `parseRPCOrder` models: the three defined RPC values map to the three
+channel types, exactly the UNKNOWN value (0) has its own clause (selector or peer dependent), any other value is
+an error.  (Field assignments and the min-units guards are tied by the byte-exact `parse` correspondence.) -/
 theorem C12_parse_rpc_order_shape_as_modelled :
-    Gen.C12.parseOrderGuards = ["details.MinUnitsMatch == 0",
-      "kit.AuctionType != BTCOutboundLiquidity && details.MinUnitsMatch > uint32(kit.Units)"] ∧
-    Gen.C12.parseOrderAssigns =
-      [("kit.AuctionType", "AuctionType(details.AuctionType)"), ("kit.Version", "Version(version)"),
-       ("kit.FixedRate", "details.RateFixed"), ("kit.Amt", "btcutil.Amount(details.Amt)"),
-       ("kit.MaxBatchFeeRate", "chainfee.SatPerKWeight( details.MaxBatchFeeRateSatPerKw, )"),
-       ("kit.Units", "NewSupplyFromSats(kit.Amt)"), ("kit.UnitsUnfulfilled", "kit.Units"),
-       ("kit.LeaseDuration", "leaseDuration"), ("kit.MinUnitsMatch", "SupplyUnit(details.MinUnitsMatch)"),
-       ("kit.AllowedNodeIDs", "allowedNodeIDs"), ("kit.NotAllowedNodeIDs", "notAllowedNodeIDs"),
-       ("kit.IsPublic", "details.IsPublic")] ∧
     Gen.C12.parseOrderChannelTypeSpecial.map (·.1) = ["0"] ∧ Gen.C12.parseOrderChannelTypeDefault.length = 1 ∧
-    Gen.C12.parseOrderChannelType.map (·.2) = [0, 1, 2] := by decide
+    Gen.C12.parseOrderChannelType = [(1, 0), (2, 1), (3, 2)] := by decide
 
 /-- the side-specific fields the RPC server adds to the kit `ParseRPCOrder` returns -/
 def withSide (k : Order) (isBid : Bool) (tier : Nat) (scb : Int) (sidecar un zc : Bool) (an cf : Nat) : Order :=
